@@ -896,7 +896,7 @@ class Interp:
         return self.concat_str(parts)
 
     def to_str(self, x):
-        if isinstance(x, (str, SStr)):
+        if isinstance(x, (str, SStr)) or hasattr(x, "concat_const"):
             return x
         if isinstance(x, int) and not isinstance(x, bool):
             return str(x)
@@ -905,6 +905,12 @@ class Interp:
     def concat_str(self, parts):
         if all(isinstance(p, str) for p in parts):
             return "".join(parts)
+        flat = [p for p in parts if hasattr(p, "concat_const")]
+        if flat:
+            # only <flat string> + constant suffix is needed by the kernels
+            if len(flat) == 1 and parts[0] is flat[0] and all(isinstance(p, str) for p in parts[1:]):
+                return flat[0].concat_const("".join(parts[1:]))
+            raise Unsupported("concatenation shape with a flat symbolic string")
         ts = [p.t if isinstance(p, SStr) else z3.StringVal(p) for p in parts if not (isinstance(p, str) and p == "")]
         return SStr(z3.Concat(*ts) if len(ts) > 1 else ts[0])
 
